@@ -26,17 +26,29 @@ theorem Sim.trans {a b c : FillSt} (h1 : Sim a b) (h2 : Sim b c) : Sim a c :=
 
 theorem Sim.symm {a b : FillSt} (h : Sim a b) : Sim b a := ⟨h.1.symm, h.2.1.symm, h.2.2.1.symm, h.2.2.2.symm⟩
 
+theorem pstep_stop (k : FillCtx) (st : FillSt) (x : Inst) (h : st.fin ∨ !(st.res < k.nti)) : pstep k st x = st := by
+  unfold pstep
+  exact if_pos h
+
 theorem pstep_sim (k : FillCtx) {a b : FillSt} (h : Sim a b) (x : Inst) : Sim (pstep k a x) (pstep k b x) := by
   obtain ⟨h1, h2, h3, h4⟩ := h
   unfold pstep
-  rw [h2, h4]
-  split
-  · exact ⟨h1, h2, h3, h4⟩
-  split
-  · exact ⟨h1, h2, h3, rfl⟩
-  split
-  · exact ⟨h1, h2, h3, h4⟩
-  · exact ⟨by simp [h1], by simp, rfl, h4⟩
+  by_cases c1 : a.fin ∨ !(a.res < k.nti)
+  · have c1' : b.fin ∨ !(b.res < k.nti) := by rw [← h2, ← h4]; exact c1
+    rw [if_pos c1, if_pos c1']; exact ⟨h1, h2, h3, h4⟩
+  · have c1' : ¬ (b.fin ∨ !(b.res < k.nti)) := by rw [← h2, ← h4]; exact c1
+    rw [if_neg c1, if_neg c1']
+    by_cases c2 : ltP k.untl x = true
+    · rw [if_pos c2, if_pos c2]; exact ⟨h1, h2, h3, rfl⟩
+    · rw [if_neg c2, if_neg c2]
+      by_cases c3 : ltP x k.proto = true
+      · rw [if_pos c3, if_pos c3]; exact ⟨h1, h2, h3, h4⟩
+      · rw [if_neg c3, if_neg c3]
+        refine ⟨?_, ?_, rfl, h4⟩
+        · show x :: a.out = x :: b.out
+          rw [h1]
+        · show a.res + 1 = b.res + 1
+          rw [h2]
 
 theorem foldl_pstep_sim (k : FillCtx) (E : List Inst) {a b : FillSt} (h : Sim a b) :
     Sim (E.foldl (pstep k) a) (E.foldl (pstep k) b) := by
@@ -50,9 +62,7 @@ theorem foldl_pstep_stop (k : FillCtx) (E : List Inst) (st : FillSt) (h : st.fin
   induction E with
   | nil => rfl
   | cons x E ih =>
-    rw [List.foldl_cons]
-    have : pstep k st x = st := by unfold pstep; rw [if_pos h]
-    rw [this]; exact ih
+    rw [List.foldl_cons, pstep_stop k st x h]; exact ih
 
 /-- without SHIFT and without position counting the ENUM round is `pstep` -/
 theorem emitStep_pstep (k : FillCtx) (ninst yy yd : Nat) (st : FillSt) (t : Nat × Nat × Nat) (hs : k.sh = 0)
